@@ -81,6 +81,7 @@ class FnSpec:
         self.origin = None      # contracts file:line
         self.optional_anchor = False
         self.rlimit = None
+        self.nodecreases = False
 
 
 def parse_key(key):
@@ -136,6 +137,7 @@ def parse_fn_blocks(lines, origin):
                 elif a.startswith('rename='): fs.rename = a[7:]
                 elif a == 'assumed': fs.assumed = True
                 elif a.startswith('rlimit='): fs.rlimit = int(a[7:])
+                elif a == 'nodecreases': fs.nodecreases = True
                 else: raise AssembleError('%s: bad //@fn option %r' % (fs.origin, a))
             i += 1
             cur = fs.clauses
@@ -591,6 +593,8 @@ def expand_fn(fs, assumed_override=False, notes=None):
         out = header + body + '\n'
         if fs.rlimit:
             out = '#[verifier::rlimit(%d)]\n' % fs.rlimit + out
+        if fs.nodecreases:
+            out = '#[verifier::exec_allows_no_decreases_clause]\n' + out
     meta = dict(name=fs.key, file=fs.src, lines=[loc['line_start'], loc['line_end']], sha256=sha,
                 mode='assumed' if assumed else 'verified', props=fs.props, deltas=deltas,
                 contract=fs.origin, lost_anchors=lost, vname=fs.rename or name,
